@@ -80,7 +80,9 @@ def run(ck):
              "load_done and Calculate); non-trivial = graph with at least one cycle AND at least one cell "
              "off every cycle; distinct by (k, deps)")
   ck.assumptions = ["formulas are sums of cell references, strict in errors (no IFERROR/try)",
-                    "same-row references only in the exhaustive family (cross-row cycles are in the history-based C05/C06 runs)",
+                    "same-row references only in the exhaustive family and in the Lean machine; dependency chains ACROSS rows "
+                    "(cumulative column, two-column chain through a lookup, next to a real cycle) are a fixed family judged by "
+                    "the direct oracle only (cross_row_chain_states_judged); cross-row cycles are in the history-based C05/C06 runs",
                     "decoded-error situations (undo of record / column / table removal, loading a stored document): "
                     "judged by the direct oracle (cycle cells hold CircularRefError, dependents keep the CircularRefError "
                     "they held before the step, off-cycle cells their value, get_cell_value of such a cell raises "
